@@ -91,3 +91,36 @@ def other_property_aborts(records, prop):
             k = f"{e.get('type')}@{(e.get('inner') or ['?','?'])[0]}:{(e.get('inner') or ['?','?'])[1]}"
             h[k] = h.get(k, 0) + 1
     return h
+
+
+# --------------------------------------------------------------------------
+# option variation shared by the run-based checks: the C09 family "one documented option at a time moved off its
+# default" is split between the properties, each judging its share with its own oracle
+
+OPTVAR_PROPS = ["C01", "C03", "C04", "C05", "C13", "C14", "C15", "C17", "C18", "C19"]
+# options that CHANGE what the property's statement fixes (not varied for that property)
+OPTVAR_EXCLUDE = {
+    "C04": {"sloppy_improvement", "improvement_quantile"},  # the statement is about the default incumbent policy
+    "C13": {"poll_mesh_multiplier", "improvement_quantile", "max_poll_grid_number"},  # "doubles" / "halves": multiplier 2, default cap
+    "C15": {"poll_mesh_multiplier"},
+    "C03": set(), "C01": set(), "C05": set(), "C14": {"poll_mesh_multiplier"}, "C17": set(), "C18": set(), "C19": set(),
+}
+
+
+def option_variation_slice(prop, tier, seed, modes=None, **extra):
+    from . import c09
+
+    cs = c09.option_variation_cases("thorough", seed)  # the full cross product; sliced here
+    i = OPTVAR_PROPS.index(prop)
+    n = len(OPTVAR_PROPS)
+    out = []
+    for j, c in enumerate(cs):
+        take = (j % n == i) if tier == "quick" else (j % 3 == i % 3)
+        if tier == "quick" and (j // n) % 3 != seed % 3:
+            take = False  # quick: a third of the share per seed (about 25 runs)
+        if not take or c["option"][0] in OPTVAR_EXCLUDE.get(prop, ()):
+            continue
+        if modes is not None and c["spec"]["noise"]["mode"] not in modes:
+            continue
+        out.append(dict({"spec": c["spec"], "optvar": c["option"]}, **extra))
+    return out
